@@ -17,6 +17,37 @@ func logSpec(what string, kinds []string, maxStages, maxRecs int, nontrivial fun
 	}
 }
 
+// logStageBlame decides whether a disagreement is due to the stages the property is about: the case is
+// re-evaluated with every other stage removed; if implementation and model then agree, the disagreement
+// was inherited from a stage that is another property's business (reported as no-failing-input-found)
+func logStageBlame(c *Ctx, relevant ...string) func(t LogCase, impl, model Sexp) bool {
+	rel := map[string]bool{}
+	for _, k := range relevant {
+		rel[k] = true
+	}
+	return func(t LogCase, impl, model Sexp) bool {
+		if h := impl.Head(); h == "panic" || h == "timeout" {
+			return true
+		}
+		t2 := t
+		t2.Stages = nil
+		for _, st := range t.Stages {
+			if rel[st.Kind] {
+				t2.Stages = append(t2.Stages, st)
+			}
+		}
+		if len(t2.Stages) == len(t.Stages) {
+			return true
+		}
+		fixAmbiguity(t2.Stages)
+		mm, err := c.Drv.Ask(t2.Req())
+		if err != nil {
+			return true
+		}
+		return logImpl(t2, false).String() != mm.String()
+	}
+}
+
 // streamLabelCount: total number of labels other than msg over all streams of a result.
 func resultStats(impl Sexp) (streams, maxPerStream, labels int) {
 	if impl.Head() != "ok" {
@@ -55,6 +86,7 @@ func init() {
 			}
 			return t
 		}
+		spec.PropertyFails = logStageBlame(c, "json", "logfmt", "regexp", "pattern", "unpack")
 		RunSpec(c, spec, c.Scale(5000, 200000))
 	}
 	props["C07"] = func(c *Ctx) {
@@ -79,6 +111,7 @@ func init() {
 			t.Recs = genRecs(r, t.Stages, 8)
 			return t
 		}
+		spec.PropertyFails = logStageBlame(c, "lblfmt", "linefmt", "drop", "keep", "decolorize")
 		RunSpec(c, spec, c.Scale(5000, 200000))
 	}
 	props["C08"] = func(c *Ctx) {
@@ -119,6 +152,8 @@ func init() {
 			s, _, _ := resultStats(impl)
 			return append(tags, fmt.Sprintf("c08:streams=%d", min(s, 6)), fmt.Sprintf("c08:limit=%d", t.Limit))
 		}
+		// filters stay (the limit counts matching records); label-rewriting stages are C06/C07's business
+		spec.PropertyFails = logStageBlame(c, "lf", "lblf", "lfip")
 		RunSpec(c, spec, c.Scale(5000, 200000))
 	}
 }
